@@ -339,8 +339,8 @@ def check_artifact(tv, art, funcs, report, drift):
         drift(f"{s}/inventory/order", "functions are emitted in a different order than they were added")
     by_name = {f.name(): f for f in funcs.values()}
     for k, n in enumerate(want):
-        if n not in art["fn"] or n not in by_name:
-            continue
+        if n not in art["fn"] or n not in by_name or got.count(n) != 1:
+            continue        # missing/duplicated functions are reported above; their companions follow suit
         d = art["fn"][n]
         e = expected_layout(by_name[n])
         for suf, cnt in d["companions"].items():
@@ -457,7 +457,9 @@ def eval_compare(s, so, tv_gen, limit=None):
             continue
         out["functions"] += 1
         bad = 0
-        for k, (meta, args) in enumerate(inputs[:limit] if limit else inputs):
+        if limit == "patterns":     # non-default artefacts: the TLC pattern rows only (not the Alloc lattice)
+            inputs = inputs[:G["npat"][(s, n)]]
+        for k, (meta, args) in enumerate(inputs):
             try:
                 r = fc.call([ca.DM(a) for a in args])
             except Exception as ex:     # noqa
@@ -708,6 +710,7 @@ def build_inputs(run, info, eval_states, tier, extra):
                         rng = np.random.default_rng(zlib.crc32(f"{s}/{n}/{i}/{tv['pats']}/{v}/{run.seed}".encode()))
                         args.append(gen_arg(f.size_in(i), tv["pats"][i], rng, v, i, mags))
                     ins.append(({"pats": list(tv["pats"]), "variant": v}, args))
+            G.setdefault("npat", {})[(s, n)] = len(ins)
             ins += extra.get((s, n), [])
             refs, seen_t, seen_f = [], None, None
             distinct, nonfinite = set(), 0
@@ -801,17 +804,14 @@ def replay(run, info, path):
         return opts.get(k, casadi_default)
     full.update(header=o("with_header", True), memtable=o("with_mem", False), main=o("main", False), mex=o("mex", False),
                 cplusplus=o("cpp", False), export=o("with_export", True), mathh=o("include_math", True))
+    G["inputs"] = {(t, f.name()): [] for t in SET_ORDER for f in info[t]["funcs"].values()}
+    G["refs"] = {(t, f.name()): [] for t in SET_ORDER for f in info[t]["funcs"].values()}
     if d.get("kind") == "eval":
-        G["inputs"] = {(s, f.name()): [] for f in f_by.values()}
-        G["refs"] = {(s, f.name()): [] for f in f_by.values()}
         f = {f.name(): f for f in f_by.values()}[d["fn"]]
         args = [np.array(a, float).reshape(f.size_in(i), order="C") for i, a in enumerate(d["inputs"])] if "inputs" in d else None
         if args is not None:
             G["inputs"][(s, d["fn"])] = [(d.get("pats"), args)]
             G["refs"][(s, d["fn"])] = [[np.array(x.nonzeros(), float) for x in f.call([ca.DM(a) for a in args])]]
-    else:
-        G["inputs"] = {(s, f.name()): [] for f in f_by.values()}
-        G["refs"] = {(s, f.name()): [] for f in f_by.values()}
     task = {"gen": tv0["gen"], "passed": tv0["passed"], "vals": tuple(tv0["vals"]), "kind": tv0["kind"], "compile": True,
             "tvs": {t: {**full, "set": t, "file": SPEC_FILE[t]} for t in SET_ORDER if SPEC_GEN[t] == tv0["gen"]}}
     r = row_task(task)
@@ -879,7 +879,7 @@ def main():
     names_rdd2 = [f.name() for f in info["rdd2"]["funcs"].values()]
     if "control_allocation" in names_rdd2:
         al, alloc_cells = alloc_inputs(run, tier)
-        step = 1 if tier == "thorough" else max(1, len(al) // 3000)
+        step = max(1, len(al) // (20000 if tier == "thorough" else 3000))
         extra[("rdd2", "control_allocation")] = al[::step]
     cov = build_inputs(run, info, eval_states, tier, extra)
 
@@ -889,7 +889,8 @@ def main():
     for tv in gen_states:
         key = (tv["gen"], tv["passed"], tuple(tv["vals"]))
         t = tasks.setdefault(key, {"gen": tv["gen"], "passed": tv["passed"], "vals": tuple(tv["vals"]), "kind": tv["kind"],
-                                   "compile": tv["kind"] in compile_kinds, "tvs": {}})
+                                   "compile": tv["kind"] in compile_kinds, "tvs": {},
+                                   "limit": None if tv["kind"] in ("implicit_default", "default") else "patterns"})
         t["tvs"][tv["set"]] = tv
     order = sorted(tasks, key=lambda k: (not tasks[k]["compile"], k))
     if NPROC > 1:
@@ -944,10 +945,13 @@ def main():
             n_art += 1
 
     # ---- coverage control
+    # (a set whose artefacts cannot be generated/compiled at all is a violation already recorded above, not a
+    #  machinery failure; only unexplained gaps are vacuous coverage)
     for s in SET_ORDER:
-        if per_set[s]["generated"] == 0:
+        explained = any(k.split("/")[0] == s for k in run.viol)
+        if per_set[s]["generated"] == 0 and not explained:
             raise MachineryError(f"vacuous coverage: no option row of set '{s}' could be generated")
-        if per_set[s]["compared_artifacts"] == 0:
+        if per_set[s]["compared_artifacts"] == 0 and not explained:
             raise MachineryError(f"vacuous coverage: no artefact of set '{s}' could be compiled and compared")
     total_fn = sum(len(info[s]["funcs"]) for s in SET_ORDER)
     if len(progs) != total_fn:
